@@ -477,6 +477,8 @@ impl Worker {
             return;
         }
 
+        #[cfg(feature = "verif-hooks")]
+        crate::verif::pause("append:before-write");
         let bytes_since_sync = writer_set.bytes_since_sync;
         let res = writer_set.handle_write(WriteOperation {
             partition_key,
@@ -488,6 +490,8 @@ impl Worker {
             unique_streams: latest_stream_versions.len(),
             confirmation_count: batch.confirmation_count,
         });
+        #[cfg(feature = "verif-hooks")]
+        crate::verif::pause("append:after-write");
         if res.is_err()
             && let Err(err) = writer_set.writer.set_len(write_offset)
         {
@@ -495,6 +499,8 @@ impl Worker {
             error!("failed to set segment file length after write error: {err}");
         }
 
+        #[cfg(feature = "verif-hooks")]
+        crate::verif::pause("append:before-reply");
         writer_set
             .has_recent_activity
             .store(true, Ordering::Relaxed);
@@ -646,6 +652,8 @@ impl WriterSet {
 
     fn sync(&mut self) -> Result<(), WriteError> {
         let write_offset = self.writer.sync()?;
+        #[cfg(feature = "verif-hooks")]
+        crate::verif::pause("sync:after-fsync");
         self.last_synced = Instant::now();
         self.unflushed_events = 0;
         self.bytes_since_sync = 0;
@@ -697,6 +705,8 @@ impl WriterSet {
 
     fn rollover(&mut self) -> Result<(), WriteError> {
         self.sync()?;
+        #[cfg(feature = "verif-hooks")]
+        crate::verif::pause("rollover:after-sync");
 
         // Open new segment
         let old_bucket_segment_id = self.bucket_segment_id;
@@ -732,6 +742,8 @@ impl WriterSet {
             self.segment_size,
         )?;
 
+        #[cfg(feature = "verif-hooks")]
+        crate::verif::pause("rollover:before-index-swap");
         let (closed_event_index, closed_partition_index, closed_stream_index) = {
             let mut indexes = self.indexes.blocking_write();
             for PendingIndex {
@@ -779,6 +791,8 @@ impl WriterSet {
             )
         };
 
+        #[cfg(feature = "verif-hooks")]
+        crate::verif::pause("rollover:after-index-swap");
         self.reader_pool.add_bucket_segment(
             old_bucket_segment_id,
             &old_reader,
@@ -786,8 +800,12 @@ impl WriterSet {
             Some(&closed_partition_index),
             Some(&closed_stream_index),
         );
+        #[cfg(feature = "verif-hooks")]
+        crate::verif::pause("rollover:between-add-segments");
         self.reader_pool
             .add_bucket_segment(self.bucket_segment_id, &self.reader, None, None, None);
+        #[cfg(feature = "verif-hooks")]
+        crate::verif::pause("rollover:end");
 
         Ok(())
     }
